@@ -109,9 +109,13 @@ void h_SEQUENCE_encode_oer(void) {
 		if(d_enc) { exp[n++] = 2; exp[n++] = vd.v[0]; exp[n++] = vd.v[1]; }
 		if(has_e) { exp[n++] = 2; exp[n++] = ve.v[0]; exp[n++] = ve.v[1]; }
 	}
+#ifdef VF_OER_FAIL
+	{ VF_SCALAR(long, fail_at); __CPROVER_assume(fail_at >= -1 && fail_at <= 8); vf_cb_fail_at = fail_at; }
+#endif
 	asn_enc_rval_t er = SEQUENCE_encode_oer(&T_td, 0, &val, vf_cb, 0);
 	VF_CANARY();
 	if(bad) { __CPROVER_assert(er.encoded == -1, "C07: a member that cannot be encoded makes the call fail"); return; }
+	if(vf_cb_failed) { __CPROVER_assert(er.encoded == -1, "C07: a failing output callback makes the call fail"); return; }
 	__CPROVER_assert(er.encoded == (ssize_t)n, "C02: OER length of the SEQUENCE");
 	__CPROVER_assert((size_t)er.encoded == vf_cb_bytes, "C07: reported size equals the bytes delivered");
 	for(size_t i = 0; i < sizeof(exp); i++) if(i < n) __CPROVER_assert(vf_cb_log[i] == exp[i], "C02/C06: OER octets: preamble, root members, extension bitmap and open types; a DEFAULT-valued addition is not sent");
